@@ -635,6 +635,14 @@ class Interp(ExprMixin):
         post_env["result"] = result
         for cl in c.ensures:
             src, _ = self.clause(cl)
+            if src.strip().startswith("is_fresh(") and src.strip().endswith(")"):
+                # the callee guarantees a newly allocated container: record it for this activation
+                v = self.spec_value(src.strip()[len("is_fresh("):-1], post_env, old, c.namespace)
+                if isinstance(v, (list, dict)):
+                    self.fresh_ids.add(id(v))
+                elif hasattr(v, "fresh"):
+                    v.fresh = True
+                continue
             self.ctx.assume(self.spec_eval(src, post_env, old, c.namespace))
         return result
 
